@@ -834,8 +834,8 @@ class Run:
                         self.boxed[l[1]] = name
                     bn_, bi_ = self.boxslot(l[1])
                     return ('P', bn_, bi_)
-                if l[0] == 'mem' and (l[2].get('rec') or '') and not (l[2].get('rec') or '').startswith('asl::'):
-                    return ('PM', l[1])            # address of a native (C library) member of the current object: opaque, for stubs
+                if l[0] == 'mem' and (((l[2].get('rec') or '') and not (l[2].get('rec') or '').startswith('asl::')) or l[2].get('int')):
+                    return ('PM', l[1])            # address of a native (C library) or scalar member of the current object: opaque, for stubs
                 raise Unsupported('address of `%s`' % pe(e['e']))
             if op in ('post++', 'post--', 'pre++', 'pre--'):
                 l = self.lv(e['e'])
